@@ -66,7 +66,7 @@ def ensure_overlay():
         # drop the init() struct-layout check (QUIC is never used by anything verified here)
         m = re.search(r'\nfunc init\(\) \{.*?\n\}\n', src, re.S)
         if m:
-            src = src[:m.start()] + "\n" + src[m.end():]
+            src = src[:m.start()] + "\nvar _ = tls.VersionTLS13\n" + src[m.end():]
         f2 = os.path.join(od, "unsafe.go")
         with open(f2, "w") as f:
             f.write(src)
